@@ -15,8 +15,12 @@ def sign_fields(prog):
     if init is None:
         raise AnalysisError("Stabilizer.__init__ vanished")
     out = set()
-    selfname = init.params[0]
-    for n in ast.walk(init.node):
+    # the constructor may be split into one private method per input format: every method of the class is searched
+    for meth in [init] + [m for m in cls.methods.values() if m is not init]:
+      if not meth.params:
+        continue
+      selfname = meth.params[0]
+      for n in ast.walk(meth.node):
         if isinstance(n, ast.If) and any(isinstance(c, ast.Constant) and c.value == "-" for c in ast.walk(n.test)):
             for st in n.body:
                 for t in ast.walk(st):
@@ -28,8 +32,10 @@ def sign_fields(prog):
                                     if isinstance(x, ast.Attribute) and isinstance(x.value, ast.Name) and x.value.id == selfname:
                                         out.add(x.attr)
     # fallback / union: the attribute that indexes a ['+', '-'] table in any method (the exporter)
+    modtabs = {name for name, vals in cls.module.assigns.items()
+               if any(isinstance(v, (ast.List, ast.Tuple)) and sorted(getattr(x, "value", None) for x in v.elts if isinstance(x, ast.Constant)) == ["+", "-"] for v in vals)}
     for m in cls.methods.values():
-        signtabs = set()
+        signtabs = set(modtabs)
         for n in ast.walk(m.node):
             if isinstance(n, ast.Assign) and isinstance(n.value, (ast.List, ast.Tuple)) and \
                     sorted(getattr(x, "value", None) for x in n.value.elts if isinstance(x, ast.Constant)) == ["+", "-"] and isinstance(n.targets[0], ast.Name):
